@@ -8,7 +8,7 @@ from vk.build import build
 from vk.props.c03 import XOR_RICH
 
 ID = 'C13'
-RULE = ('As C03 (overflow-provoking capacities included) plus capture time T (default, or a finite value on/next to a transition, before all, after all), '
+RULE = ('Part stress: one or two 4-input gates at capacity 4, up to 3 edges per input within 5 time units, pin delays from {0..8}, oracles (a) and (b). Part capture: As C03 (overflow-provoking capacities included) plus capture time T (default, or a finite value on/next to a transition, before all, after all), '
         'accumulation-control tables of the documented shape (len(lines), 3) with accumulator -1/0..3 (shared accumulators), integer weights -3..3, '
         '1..2 propagations, WaveSim and WaveSimCuda. Oracles: (a) s[3..6], s[10] and the value at T (s[7], s[8], sd=0) recomputed from the raw output '
         'waveform (value at T only for waveforms with increasing timestamps); (b) second run with capacity above a computed transition bound must be '
@@ -36,6 +36,28 @@ def cases(draw, tier):
                 actrl=[list(x) for x in actrl] if actrl else None, props=draw(st.integers(1, 2)), partial=draw(st.sampled_from([0, 0, 1, 2, 3])),
                 owave=draw(st.one_of(st.none(), st.lists(st.tuples(st.integers(0, 1), st.lists(st.integers(0, 700), max_size=6), st.booleans()),
                                                          min_size=1, max_size=4))))
+
+
+@st.composite
+def stress_cases(draw, tier):
+    """one or two wide gates at minimum capacity with many close input edges and very unequal pin delays: overflow, pulse filtering and
+    cancellation down to an empty waveform meet in one gate"""
+    fam = draw(st.sampled_from(['XOR', 'XNOR', 'AND', 'OR', 'NAND', 'NOR']))
+    g = [dict(f=fam, k=fam.lower() + '4', i=['i0', 'i1', 'i2', 'i3'])]
+    if draw(st.booleans()):
+        g.append(dict(f='XOR', k='xor2', i=['g0', draw(st.sampled_from(['i0', 'i3']))]))
+    nl = dict(pi=4, st=[], g=g, po=[f'g{len(g) - 1}'] + (['g0'] if len(g) > 1 else []), style='cells',
+              w={s_: draw(st.sampled_from(['D', 'F'])) for s_ in ['i0', 'i1', 'i2', 'i3', 'g0', 'g1']}, ports=['i0', 'i1', 'i2', 'i3', 'o0'] + (['o1'] if len(g) > 1 else []),
+              rev=False)
+    rd = rm.readers(nl)
+    nl['w'] = {s_: ('F' if len(rd[s_]) > 1 else m) for s_, m in nl['w'].items() if s_ in rd}
+    lanes = 4
+    waves = [[dict(v=draw(st.integers(0, 1)), t=sorted(draw(st.lists(st.integers(0, 40), min_size=1, max_size=3, unique=True)))) for _ in range(lanes)] for _ in range(4)]
+    for row in waves:
+        for w_ in row:
+            if w_['v'] and len(w_['t']) == 3: w_['t'] = w_['t'][:2]          # an input slot holds 4 entries: TMIN + 2 edges + terminator
+    return dict(nl=nl, lanes=lanes, waves=waves, dpool=draw(st.lists(st.sampled_from([0, 1, 2, 3, 24, 40, 64]), min_size=8, max_size=16)), caps=4,
+                f64=False, strip_forks=draw(st.booleans()), cuda=False, ctime=None, actrl=None, props=1, partial=0, owave=None)
 
 
 def bound(nl, waves, lane):
@@ -216,4 +238,5 @@ def prop(case):
     return Obs(separates or (sim_clear and sim_set and checked_b) or shared, labels, checks=len(rows) * lanes)
 
 
-PARTS = [Part('capture', prop, strategy=cases, quick=(8, 250), thorough=(16, 8000))]
+PARTS = [Part('stress', prop, strategy=stress_cases, quick=(4, 500), thorough=(16, 20000)),
+         Part('capture', prop, strategy=cases, quick=(8, 250), thorough=(16, 8000))]
